@@ -9,7 +9,10 @@ def step (_ : Unit) (line : List Char) : Unit × String :=
   | "fullsource", some [.str s] =>
     match fullSource s.toList with
     | some r => ((), escapeStr (Val.enc (.str (String.ofList r))))
-    | none => ((), "outside-model")
+    | none =>
+      match fullSourceQ s.toList with
+      | some r => ((), escapeStr (Val.enc (.str (String.ofList r))))
+      | none => ((), "outside-model")
   | _, _ => ((), "bad-op")
 
 end GoPipeline.DriverC17
